@@ -105,6 +105,9 @@ type VerifSim struct {
 	FetchFault      func(n int, broker int32) VerifSimFetchFault
 	FetchMaxRecords int
 	fetchN          int
+	// OffsetFault: error code for the n-th ListOffsets request (ErrNoError = answer normally)
+	OffsetFault func(n int) KError
+	offsetN     int
 	fetches         []VerifSimFetchInfo
 	logStart        map[string]int64
 	// group coordinator (sim_group.go)
